@@ -286,7 +286,10 @@ with apply (fuel : nat) (vf va : val) {struct fuel} : res * list eff :=
     match vf with
     | VPlain c (S (S n)) => (Val (VPlain c (S n)), [])      (* curried library function: more arguments to come *)
     | VPlain c _ =>                                         (* library functions want a data argument *)
-        match va with VData => (Val VRes, [EffCall c]) | _ => (Err, []) end
+        match va with
+        | VData => (Val VRes, [EffCall c])
+        | _ => (Err, [EffCall CNone])                     (* argument typing is not modelled: marked, no authority used *)
+        end
     | VEvalValue =>
         match va with
         | VSrc s =>
